@@ -14,13 +14,20 @@
                          (NgramVectorizer.transform, LZCompressionVectorizer.transform, BPE 'matrix')
      lz_encode        <- lempel_ziv_based_encode (dictionary = insertion-ordered association list)
      lz_transform     <- LZCompressionVectorizer.transform: the input dictionary is rebuilt from base_dictionary
-                         for every string
+                         for every string; indptr advances by the number of phrases KEPT (those with a column)
+     table_hash       <- hash_function_ of a fitted model with max_columns set, given as the table of its values on
+                         the phrases that can occur (the murmur hash itself is not modelled)
      lz_transform_noreset <- the same loop WITHOUT the per-string reset (used only for the refutation)
-     contract         <- contract_pair on arrays of length >= 2 (shorter arrays: D14, excluded by the generators)
+     contract         <- contract_pair (arrays of length 0 and 1 are returned unchanged)
      bpe_encode       <- bpe_encode: clamp code points, then one contract_pair per learned pair with new_code counting
                          up from max_char_code + 1 for THIS string
      blocks           <- n_blocks = n // b + 1; block i = [i*b, min(n, i*b + b))     (Wasserstein/Sinkhorn transform)
      chunks           <- n_chunks = (be - bs) // c + 1; chunk j = [j*c + bs, min(be, j*c + bs + c))
+     kernel_chunks / kernel_chunk_fill <- the chunk loop INSIDE lot_vectors_sparse_internal / lot_vectors_dense_internal:
+                         result = np.zeros((n_rows, .)); n_chunks = n_rows // chunk_size + 1;
+                         for n in range(n_chunks): for i in range(n*chunk_size, min(n*chunk_size + chunk_size, n_rows)):
+                         result[i] = f(row i)         (chunk_size = max(256, block_size // 64))
+     kernel_chunks_short <- the same loop with the chunk count max(1, n_rows // chunk_size) (refutation only)
      rows_of          <- X[start:end]
      blockwise / block_chunkwise <- np.vstack over blocks (of np.vstack over chunks) of f(rows of the block/chunk)
      sink_loop        <- sinkhorn_iterations_batch: every column of the batch is advanced by its own update, but the
@@ -100,11 +107,12 @@ Section LZ.
   Definition lz_row (coldict base : dict) (max_size : nat) (s : list Z) : list (Z * Z) :=
     lz_row_of coldict (lz_encode max_size s base).
 
-  (* as the code stands indptr advances by len(encoding_dict) (D4); with every phrase known that is the row length *)
-  Definition lz_advance (base : dict) (max_size : nat) (s : list Z) : nat := length (lz_encode max_size s base).
+  (* indptr.append(len(indices)): indptr advances by the number of phrases that have a column *)
+  Definition lz_advance (coldict base : dict) (max_size : nat) (s : list Z) : nat :=
+    length (lz_row coldict base max_size s).
 
   Definition lz_transform (coldict base : dict) (max_size : nat) (X : list (list Z)) : csr :=
-    csr_loop (lz_row coldict base max_size) (lz_advance base max_size) X.
+    csr_loop (lz_row coldict base max_size) (lz_advance coldict base max_size) X.
 
   (* the same loop with the dictionary carried over from one string to the next *)
   Definition lz_transform_noreset (coldict base : dict) (max_size : nat) (X : list (list Z)) : list (list (Z * Z)) :=
@@ -118,6 +126,10 @@ Fixpoint list_eqb (a b : list Z) : bool :=
   | x :: a', y :: b' => Z.eqb x y && list_eqb a' b'
   | _, _ => false
   end.
+
+(* hash_function_ as a finite table (phrase, hash); phrases outside the table map to -1 (never a valid hash) *)
+Definition table_hash (tbl : list (list Z * Z)) (p : list Z) : Z :=
+  match find (fun kv => list_eqb p (fst kv)) tbl with Some kv => snd kv | None => (-1)%Z end.
 
 (* ---------- BPE ---------- *)
 Fixpoint contract (l : list Z) (a b c : Z) : list Z :=
@@ -151,6 +163,21 @@ Definition blockwise {A B : Type} (f : list A -> list B) (b : nat) (X : list A) 
 Definition block_chunkwise {A B : Type} (f : list A -> list B) (b c : nat) (X : list A) : list B :=
   concat (map (fun blk => concat (map (fun ch => f (rows_of X ch)) (chunks c (fst blk) (snd blk))))
               (blocks b (length X))).
+
+(* the chunk loop inside the LOT kernels: chunk k of a block of n rows = [k*c, min(k*c + c, n)), k < n / c + 1 *)
+Definition kernel_chunks (c n : nat) : list (nat * nat) :=
+  map (fun k => ((k * c)%nat, Nat.min (k * c + c) n)) (seq 0 (n / c + 1)).
+
+Definition kernel_chunks_short (c n : nat) : list (nat * nat) :=
+  map (fun k => ((k * c)%nat, Nat.min (k * c + c) n)) (seq 0 (Nat.max 1 (n / c))).
+
+(* result = zeros; every chunk in turn writes result[i] = row (X[i]) for the i of its range *)
+Definition kernel_chunk_fill {A B : Type} (row : A -> B) (d : A) (zero : B) (chunk_list : list (nat * nat)) (X : list A)
+  : list B :=
+  prange_fill A B row d (repeat zero (length X)) X (concat (map range chunk_list)).
+
+(* the rows written by the chunk loop, in the order they are written *)
+Definition kernel_written (c n : nat) : list nat := concat (map range (kernel_chunks c n)).
 
 (* sizes of the successive calls of the per-block / per-chunk kernel, as observed on the implementation *)
 Definition block_sizes (b n : nat) : list nat := map (fun p => (snd p - fst p)%nat) (blocks b n).
